@@ -74,7 +74,7 @@ class C09(Prop):
 
     @property
     def gens(self):
-        return [gen_imports.gen_imports_corpus, gen_imports.gen_imports_edge, gen_imports.gen_imports, gen_imports_iter]
+        return [gen_imports.gen_imports_corpus, gen_imports.gen_imports_edge, gen_imports.gen_imports_smallvs, gen_imports.gen_imports, gen_imports_iter]
 
     def judge(self, op, impl, model, spec):
         if op.startswith("iter "):
